@@ -112,6 +112,31 @@ theorem wrapped_lp_tokens_backed (now : Nat) (ops : List Op) (hok : ∀ op ∈ o
   unfold C at h2
   omega
 
+/-- what "backed" buys: after any history (farms behaving, `FarmOK`), a holder who presents any
+    amount `x` of any wrapped LP token he holds and passes the proxy's own guard (`into_part` not
+    zero) is never turned away for lack of backing — the proxy has the LP tokens to send to the
+    pool and the locked tokens to hand back or burn, whatever the pool then pays -/
+theorem wrapped_lp_redeemable (now : Nat) (ops : List Op) (hok : ∀ op ∈ ops, FarmOK op)
+    (w x rb ro p : Nat) (r : WLp) :
+    let s := run (init now) ops
+    s.wl[w]? = some r → 0 < x → x ≤ r.circ → 0 < r.total → part r.locked r.total x = some p →
+    (removeLiq s w x rb ro).isSome := by
+  intro s hr hx hc ht hp
+  obtain ⟨_, hback⟩ := wrapped_lp_backed now ops
+  obtain ⟨hrem, hlk⟩ := hback w r x p hr (by omega) ht hp
+  obtain ⟨_, hlp⟩ := wrapped_lp_tokens_backed now ops hok
+  have hlpx : x ≤ s.lp := hlp w r x hr hc
+  have hlk' : p ≤ s.lk r.k := hlk
+  have h1 : takeW s w x = some
+      ({ setW s w { r with circ := r.circ - x, rem := r.rem - p, orph := r.orph } with
+         lk := fun i => if i = r.k then s.lk i - p else s.lk i }, r, p) := by
+    simp only [takeW, hr, Option.bind_eq_bind, Option.bind_some, req, hx, if_true, sub?, hc, hp,
+      hrem, Bag.sub?, hlk', Option.pure_def, Bool.false_eq_true, if_false]
+  simp only [removeLiq, h1, Option.bind_eq_bind, Option.bind_some, sub?, setW]
+  rw [if_pos hlpx]
+  simp only [Option.bind_some, Option.pure_def]
+  split <;> simp
+
 /-- leaving a farm entered with wrapped LP tokens: without penalty the same wrapped LP tokens come
     back; with a penalty the caller gets a new wrapped LP token over the remaining amount that
     records the SAME locked nonce and the pro-rata locked amount of the remainder — never more
